@@ -203,11 +203,11 @@ _MODE = {"01": 1, "02": 2, "03": 3, "04": 4, "05": 5}
 def _result_fields(op: str, res, a: dict) -> dict:
     if op == "get_state":
         return {"state": enums.state(res.state), "watts": enums.integer(res.power_consumption),
-                "amps10": int(round(res.electric_current * 10)), "left": text(res.time_left), "on": text(res.time_on),
+                "amps10": enums.tenths(res.electric_current), "left": text(res.time_left), "on": text(res.time_on),
                 "auto": text(res.auto_shutdown)}
     if op == "get_breeze_state":
         return {"state": enums.state(res.state), "mode": enums.mode(res.mode), "target": enums.integer(res.target_temperature),
-                "fan": enums.fan(res.fan_level), "swing": enums.swing(res.swing), "temp10": int(round(res.temperature * 10)),
+                "fan": enums.fan(res.fan_level), "swing": enums.swing(res.swing), "temp10": enums.tenths(res.temperature),
                 "remote": text(res.remote_id)}
     if op == "get_shutter_state":
         return {"position": enums.integer(res.position), "direction": enums.direction(res.direction)}
